@@ -120,6 +120,14 @@ theorem scanner_no_fault (d : Src) (o : Oracle) (n : Nat) (f : Fault)
     (h : (lexAll d o n Sc.init []).2.1 = some (.fault f)) : f = .fuel :=
   lexAll_safe cert_valid d o n Sc.init [] (inv_init cert_valid d) f h
 
+/-- the same for `scanFile` (the encoding check of the first call of `Next`, then the run) -/
+theorem scanFile_no_fault (content : Bytes) (o : Oracle) (f : Fault)
+    (h : (scanFile content o).2.1 = some (.fault f)) : f = .fuel := by
+  unfold scanFile at h
+  split at h
+  · simp at h
+  · exact scanner_no_fault _ o _ f h
+
 /-- the configuration a run ends in is reachable (so all of the above applies to it) -/
 theorem lexAll_reach (d : Src) (o : Oracle) (n : Nat) : Reach d o (lexAll d o n Sc.init []).2.2 :=
   reach_lexAll n Sc.init [] Reach.init
@@ -148,5 +156,13 @@ example : (lexAll (Src.ofList [71, 69, 63]) sampleOracle 100 Sc.init []).2.1 = s
 example : cert.nt .stateSingleComment = true ∧ cert.nt .stateRoot = false := by decide +kernel
 example : cert.oe .stateSchemaClosed = some .schemaBegin ∧ cert.oe .stateExpectKeyword = none := by decide +kernel
 example : cert.rq .stateMultilineAnnotation = 2 ∧ cert.srq = 1 := by decide +kernel
+-- the check is sensitive: state functions that could fault are refused —
+-- `stateRoot` popping at once; an End event where no Begin is outstanding; a position before the file
+example :
+    checkCode cert .stateRoot (.leaf [.popToStep] .done) = false ∧
+    checkCode cert .stateExpectKeyword (.leaf [.found .keywordEnd 0] .done) = false ∧
+    checkCode cert .stateRoot (.leaf [.found .contextOpen 1] .done) = false ∧
+    checkCode cert .stateRoot (.leaf [.rewind 2] .done) = false ∧
+    checkCode cert .stateRoot (code .stateRoot) = true := by decide +kernel
 
 end JSight.C01
